@@ -124,6 +124,23 @@ theorem conds_wt_of {Γ : Ctx} {sp : LoopSpec} (hs : ∀ a ∈ sp, CondOK Γ a.2
   · intro c hc; obtain ⟨a, ha, rfl⟩ := mem_nonPre hc; exact ⟨(hs a ha).1, (hs a ha).2.1⟩
   · intro c hc; obtain ⟨a, ha, rfl⟩ := mem_onlyPost hc; exact ⟨(hs a ha).1, (hs a ha).2.1⟩
 
+/-- how a `while` statement may end: normally (condition false, or `break`) with its
+inv + post conditions true; or with the contract of an enclosing loop -/
+def LoopOut (Γ : Ctx) (loops : List LoopSpec) (sp : LoopSpec) : Out → Prop
+  | .norm env1 => EnvOk Γ env1 ∧ CondsHold env1 (nonPre sp)
+  | .brk k env1 => EnvOk Γ env1 ∧ ∃ sp', loops[k]? = some sp' ∧ CondsHold env1 (nonPre sp')
+  | .cont k env1 => EnvOk Γ env1 ∧ ∃ sp', loops[k]? = some sp' ∧ CondsHold env1 (nonPost sp')
+  | .ret env1 => EnvOk Γ env1
+
+theorem loopOut_outOK {Γ : Ctx} {loops : List LoopSpec} {sp : LoopSpec} {o : Out}
+    (hsp : ∀ a ∈ sp, CondOK Γ a.2) (h : LoopOut Γ loops sp o) :
+    OutOK Γ loops (assumeAll (nonPre sp)) o := by
+  cases o with
+  | norm e => exact situation_assume h.1 h.2 (conds_wt_of hsp).2.1
+  | brk k e => exact h
+  | cont k e => exact h
+  | ret e => exact h
+
 /-- the part of the `while` case that is an induction over the iterations: from a loop
 head where pre+inv hold, the loop ends with inv+post (normal / break) or with the
 contract of an outer loop -/
@@ -135,8 +152,7 @@ theorem loop_sound {Γ : Ctx} {loops : List LoopSpec} {sp : LoopSpec} {c : Expr}
     (hBody : constVal c = some 0 ∨ ∃ fe, checkS (sp :: loops) (bodyFacts sp c) body = some fe ∧
       (terminates body || (checkAsserts fe (nonPost sp)).isSome) = true)
     {env : Env} {w : FStmt} {o : Out} (hx : Exec Γ env w o) :
-    w = .while sp c body → EnvOk Γ env → CondsHold env (nonPost sp) →
-      OutOK Γ loops (assumeAll (nonPre sp)) o := by
+    w = .while sp c body → EnvOk Γ env → CondsHold env (nonPost sp) → LoopOut Γ loops sp o := by
   obtain ⟨wPost, wPre, wOnly⟩ := conds_wt_of hsp
   induction hx with
   | skip => intro hw; cases hw
@@ -175,7 +191,7 @@ theorem loop_sound {Γ : Ctx} {loops : List LoopSpec} {sp : LoopSpec} {c : Expr}
       | none => simp [hq] at hp
       | some fq =>
         obtain ⟨tp, _⟩ := checkAsserts_sound _ _ _ S1 wOnly hq
-        refine situation_assume he ?_ wPre
+        refine ⟨he, ?_⟩
         intro d hd
         rcases nonPre_split hd with h | h
         · exact hinv d h
@@ -217,7 +233,7 @@ theorem loop_sound {Γ : Ctx} {loops : List LoopSpec} {sp : LoopSpec} {c : Expr}
         obtain ⟨he1, sp0, hk, hc⟩ := ob_ok
         simp only [List.getElem?_cons_zero, Option.some.injEq] at hk
         subst hk
-        exact situation_assume he1 hc wPre
+        exact ⟨he1, hc⟩
       · subst h1; subst h2
         obtain ⟨he1, sp0, hk, hc⟩ := ob_ok
         exact ⟨he1, sp0, by simpa using hk, hc⟩
@@ -345,7 +361,7 @@ theorem exec_sound {Γ : Ctx} :
           have run : ∀ (hBody : constVal c = some 0 ∨ ∃ fe, checkS (sp :: loops) (bodyFacts sp c) body = some fe ∧
               (terminates body || (checkAsserts fe (nonPost sp)).isSome) = true),
               OutOK Γ loops (assumeAll (nonPre sp)) o := fun hBody =>
-            loop_sound hsp hcc
+            loopOut_outOK hsp <| loop_sound hsp hcc
               (fun fs' fs1' env' o' hck' S' hx' => ihb (sp :: loops) fs' fs1' env' o' hwb (wf_cons hl hsp) hck' S' hx')
               hP hBody hx rfl S.envOk tin
           by_cases h0 : (constVal c == some 0) = true
@@ -359,8 +375,7 @@ theorem exec_sound {Γ : Ctx} :
               simp only [hk] at hc
               by_cases hend : (terminates body || (checkAsserts fe (nonPost sp)).isSome) = true
               · rw [if_pos hend] at hc
-                simp only [Option.some.injEq] at hc
-                subst hc
+                cases hc
                 exact run (Or.inr ⟨fe, hk, hend⟩)
               · rw [if_neg hend] at hc
                 cases hc
